@@ -67,6 +67,29 @@ class BaseProp:
                 return out
             observed.append(o)
             hist[c.get("kind", "?") + ("/err" if isinstance(o, dict) and o.get("err") else "/ok")] += 1
+        # second pass in the same process, in the opposite order: an answer that depends on what ran before is a wrong
+        # answer for one of the two histories; the differing observation is evaluated like any other case
+        if fixed_cases is None and getattr(self, "second_pass", True):
+            extra = []
+            for idx in range(len(cases) - 1, -1, -1):
+                c = cases[idx]
+                if c.get("nondet"):
+                    continue
+                try:
+                    o2 = self.run_impl(c)
+                    same = self.nontrivial_key(c, o2) == self.nontrivial_key(c, observed[idx])
+                except Exception:
+                    out["error"] = "driver crashed on second pass, case %r: %s" % (c, traceback.format_exc())
+                    return out
+                if not same:
+                    c2 = dict(c)
+                    c2["second_pass"] = "observed again after all other cases of this run had been executed (run the whole check with the same VERIF_SEED to reproduce)"
+                    extra.append((c2, o2))
+            out["second_pass_differences"] = len(extra)
+            for c2, o2 in extra[:50]:
+                cases.append(c2)
+                observed.append(o2)
+                hist["second-pass/" + c2.get("kind", "?")] += 1
         out["evaluations"] = len(cases)
         out["histogram"] = dict(hist)
         keys = set()
